@@ -145,26 +145,22 @@ def register(S):
         targs = ctx.callee.get("targs") or [None, None]
         return ctx.ret(Opaque.make("map_iter", map=ctx.args[0], what=kind, kty=targs[0], vty=targs[1] if len(targs) > 1 else None, yielded=0))
 
-    @S.pat(r"^<alloc::collections::btree::map::(Keys|Iter|Values)<'a, K, V> as core::iter::traits::iterator::Iterator>::next$")
-    def map_iter_next(ctx):
-        itref = ctx.args[0]
-        it = ctx.deref(itref)
-        if not (isinstance(it, Opaque) and it.kind == "map_iter"):
-            return ctx.ret(ctx.top_ret())
-        # abstract iteration: one generic element, then exhaustion (the loop body is analysed for an arbitrary element)
+    def btree_pull(ip, st, it):
+        """advance a BTreeMap iterator: one generic element, then exhaustion (the loop body is analysed for an arbitrary element)"""
+        from .sum_iter import END
         if it.get("yielded") >= 1:
-            return ctx.ret(NONE)
-        s_some, s_none = ctx.st.copy(), ctx.st
-        ctx.ip.write_loc(s_some, itref.loc, it.set(yielded=1))
+            return [(st, it, END)]
+        s_some, s_none = st.copy(), st
+        it2 = it.set(yielded=1)
         k = top_of(it.get("kty"), tags=frozenset([("map_key",)]))
         if isinstance(it.get("kty"), dict) and it.get("kty").get("path") == "adsb_deku::ICAO":
             k = AdtVal("adsb_deku::ICAO", 0, [ArrayVal([IntVal.top(U8, tags=frozenset([("map_key", j)])) for j in range(3)], 3)], vname="ICAO")
         kcell = s_some.new_heap(k)
-        vcell = s_some.new_heap(existing_value(ctx.ip, s_some, it.get("vty")))
+        vcell = s_some.new_heap(existing_value(ip, s_some, it.get("vty")))
         mref = it.get("map")
-        m2 = ctx.ip.read_loc(s_some, mref.loc)
+        m2 = ip.read_loc(s_some, mref.loc)
         if isinstance(m2, Opaque) and m2.kind == "btreemap":
-            ctx.ip.write_loc(s_some, mref.loc, m2.set(cells=m2.get("cells") + ((fp(k), RefVal(vcell, True)),)))
+            ip.write_loc(s_some, mref.loc, m2.set(cells=m2.get("cells") + ((fp(k), RefVal(vcell, True)),)))
         what = it.get("what")
         if what == "keys":
             v = RefVal(kcell, False)
@@ -172,7 +168,23 @@ def register(S):
             v = RefVal(vcell, False)
         else:
             v = TupleVal([RefVal(kcell, False), RefVal(vcell, False)])
-        return ctx.ret_states([(s_some, some(v)), (s_none, NONE)])
+        return [(s_some, it2, v), (s_none, it2, END)]
+
+    S.btree_pull = btree_pull
+
+    @S.pat(r"^<alloc::collections::btree::map::(Keys|Iter|Values)<'a, K, V> as core::iter::traits::iterator::Iterator>::next$")
+    def map_iter_next(ctx):
+        from .sum_iter import END
+        itref = ctx.args[0]
+        it = ctx.deref(itref)
+        if not (isinstance(it, Opaque) and it.kind == "map_iter"):
+            return ctx.ret(ctx.top_ret())
+        outs = []
+        for s, it2, e in btree_pull(ctx.ip, ctx.st, it):
+            ctx.ip.write_loc(s, itref.loc, it2)
+            ctx.ip.finish_call(s, ctx.dest, ctx.target, NONE if e is END else some(e))
+            outs.append(s)
+        return outs
 
     @S.on("alloc::collections::btree::map::BTreeMap::<K, V, A>::retain")
     def map_retain(ctx):
